@@ -80,6 +80,9 @@ def one_case(M, rec, rng, g, desc, pars, st):
     cand = CC.candidate_params(desc, pars)
     keys = rng.sample(cand, rng.randint(1, min(4, len(cand)))) if rng.random() < 0.5 else []
     opts = CC.random_opts(rng, 0.2) if rng.random() < 0.3 else {}
+    if rng.random() < 0.25:  # each single initial clamp alone (the re-extracted symbols must keep their place)
+        opts = rng.choice(({"positive_init_density": True}, {"positive_init_speed": True}, {"positive_init_queue": True},
+                           {"positive_init_density": True, "positive_init_queue": True}))
     try:
         case = CC.CompileCase(M, rng, desc, pars, st, keys, opts, own_symbols=(rng.random() < 0.5))
     except Exception as e:
@@ -263,6 +266,9 @@ def run(M, rec, tier, seed, k, n):
         shape = next(sh)
         if it % 4 == 0:
             desc = collision_network(g, rng)
+        elif it % 9 == 5:
+            _, desc = g.network(rng.choice(("chain", "ramp", "random")), force=("long",))
+            rec.count("long_link_networks")
         else:
             _, desc = g.network(shape)
         if rng.random() < 0.5:
